@@ -560,8 +560,41 @@ def paths_of(prog: Program, func: FuncInfo, outer_env: dict | None = None) -> li
     key = (id(prog), func.qualname, id(outer_env) if outer_env else 0)
     if key not in _cache:
         pe = PathEnumerator(prog, func, outer_env)
-        _cache[key] = pe.paths()
+        _cache[key] = _expand_super(prog, func, pe.paths())
     return _cache[key]
+
+
+def _expand_super(prog: Program, func: FuncInfo, paths: list[Path]) -> list[Path]:
+    """A path that ends in `return super().<same method>(args)` continues with the parent method's paths,
+    so that splitting a routine into a subclass plus a super call is transparent to every rule."""
+    if func.cls is None:
+        return paths
+    out = []
+    for p in paths:
+        r = p.exit[1] if p.exit[0] == "return" else None
+        if not (r and r[0] == "call" and r[1][0] == "attr" and r[1][2] == func.name and T.is_call_to(r[1][1], "builtins.super")):
+            out.append(p)
+            continue
+        parent = None
+        for c in prog.mro(func.cls)[1:]:
+            if func.name in c.methods:
+                parent = c.methods[func.name]
+                break
+        if parent is None:
+            out.append(p)
+            continue
+        names = [n for n in parent.params if n != "self"]
+        sub = dict(zip(names, r[2]))
+        sub.update({k: v for k, v in r[3] if k})
+
+        def bind(tm, sub=sub):
+            return T.rewrite(tm, lambda x: sub.get(x[1]) if x[0] == "param" and x[1] in sub else None)
+
+        for q in paths_of(prog, parent):
+            events = list(p.events) + [tuple(bind(x) if isinstance(x, tuple) and x and isinstance(x[0], str) and x[0] in T._OPS else x for x in e) for e in q.events]
+            exit_ = q.exit if len(q.exit) == 1 else (q.exit[0], bind(q.exit[1]))
+            out.append(Path(events, exit_, dict(p.env)))
+    return out
 
 
 def nested_function(prog: Program, func: FuncInfo, name: str) -> FuncInfo | None:
